@@ -69,8 +69,8 @@ def scan_states_rule(ctx: Ctx, rule: str) -> None:
                 norm.formula(ast.parse("object_state == 'install'", mode="eval").body),
                 norm.formula(ast.parse("test_object.is_permanent()", mode="eval").body),
             ])
-            perm_conds = [i for i, s in enumerate(view.steps) if s.kind == "cond" and s.pol
-                          and "is_permanent()" in ast.unparse(s.node) and "'install'" in ast.unparse(s.node)]
+            # the shortcut must be taken under exactly "installation state of a permanent object" (semantic, not textual)
+            perm_conds = [i for i, s in enumerate(view.steps) if s.kind == "cond" and norm.equivalent(norm.formula(s.node) if s.pol else norm.neg(norm.formula(s.node)), perm)]
             if through_handler:
                 problems.append(("a scan that ended in an error reports the states as present", view))
             elif runs:
@@ -117,6 +117,43 @@ def scan_states_rule(ctx: Ctx, rule: str) -> None:
     ok2 = ok2 and len(state_defs) == 1 and ast.unparse(state_defs[0].value) == "object_params.get('set_state')"
     ctx.record(rule + "c", "PROV", fref, "check_state<obj> = the node's set_state of that object; show_location<obj> = the shared pool", ok2,
                {"keys": keys}, "" if ok2 else "the scan no longer checks the node's own produced state in the shared pool")
+
+
+def scan_coverage_rule(ctx: Ctx, rule: str) -> None:
+    """Every object whose state the test provides takes part in the state scan (its check_state, location and mode are handed
+    to the check), except objects without a set_state and the installation of a permanent object."""
+    from ..kinds import loop_iteration_views, the_loop
+
+    fref = f"{NODE}:TestNode.scan_states"
+    loop = the_loop(ctx, fref, ast.For, lambda l: ast.unparse(l.iter) == "self.objects", "loop over the node's objects")
+    views = loop_iteration_views(ctx, fref, loop, lambda n_: isinstance(n_, ast.Subscript) and isinstance(n_.ctx, ast.Store) or isinstance(n_, (ast.Break, ast.Continue)))
+    from ..kinds import expr_formula
+
+    rows = {"empty": 0, "permanent": 0, "scanned": 0}
+    problems = []
+    for v in views:
+        empty = expr_formula(v, len(v.steps), "object_state is None or object_state == ''")
+        perm = expr_formula(v, len(v.steps), "object_state == 'install' and test_object.is_permanent()")
+        conds = norm.conj([v.cond_formula(i) for i, st in enumerate(v.steps) if st.kind == "cond"])
+        stores = {ast.unparse(st.targets[0].slice).split("{")[0].strip("f'\"") for i, st in v.stmts(lambda s_: isinstance(s_, ast.Assign) and ast.unparse(s_.targets[0]).startswith("node_params["))}
+        if norm.implies(conds, empty):
+            rows["empty"] += 1
+            if stores or v.path.exit != "continue":
+                problems.append(("an object without a set_state takes part in the scan or ends it", v))
+        elif norm.implies(conds, perm):
+            rows["permanent"] += 1
+            if stores:
+                problems.append(("the installation of a permanent object is scanned", v))
+        elif norm.implies(conds, norm.conj([norm.neg(empty), norm.neg(perm)])):
+            rows["scanned"] += 1
+            need = {"check_state", "show_location", "check_mode"}
+            if not need <= stores or v.path.exit not in ("fall", "loopback", "next"):
+                problems.append((f"an object with a state to check is left out of the scan (parameters set: {sorted(stores)}, exit {v.path.exit}): its missing state goes unnoticed and the setup is skipped", v))
+        else:
+            problems.append(("a path through the object loop is decided by something other than 'no set_state' / 'permanent install'", v))
+    ok = not problems and all(rows.values())
+    ctx.record(rule, "TABLE", fref, "per object: no set_state -> not scanned; install of a permanent object -> scan preparation ends; otherwise check_state / show_location / check_mode of the object are handed to the scan",
+               ok, {"rows": rows, **({"path": problems[0][1].path.describe()[-12:]} if problems else {})}, "" if ok else (problems[0][0] if problems else f"a row of the scan preparation vanished: {rows}"))
 
 
 def pass_only_rule(ctx: Ctx, rule: str) -> None:
@@ -277,6 +314,7 @@ def run(ctx: Ctx) -> None:
     ctx.call(scan_states_rule, "7")
     ctx.call(pass_only_rule, "8")
     ctx.call(pull_locations_rule, "9")
+    ctx.call(scan_coverage_rule, "7t")
     ctx.call(T.t_g5, "10/T.G5")
     from . import graphrules as GR
     from .c08 import session_identity
@@ -291,6 +329,8 @@ def run(ctx: Ctx) -> None:
 
 G = "cartgraph/graph.py"
 MUTANTS = [
+    ("permanent-shortcut-inverted", NODE, "            if object_state == \"install\" and test_object.is_permanent():\n                should_run = False", "            if not (object_state == \"install\" and test_object.is_permanent()):\n                should_run = False", "7t"),
+    ("permanent-shortcut-any-state", NODE, "            if object_state == \"install\" and test_object.is_permanent():\n                should_run = False", "            if test_object.is_permanent():\n                should_run = False", "7t"),
     ("drop-not-in-drop-guard", G, "if not next.should_run(worker):\n                        previous.drop_parent(next, worker)",
      "if next.should_run(worker):\n                        previous.drop_parent(next, worker)", "2/T.G4"),
     ("delete-setup-ready-test", G, "                if next.is_setup_ready(worker):\n                    await self.traverse_node(next, worker, params)",
